@@ -15,7 +15,7 @@ from concurrent.futures import ThreadPoolExecutor
 
 V = os.path.dirname(os.path.dirname(os.path.abspath(__file__)))
 REPO = os.environ.get("VERIF_REPO", "/repo")
-OUT = os.path.join(V, ".cache", "automut")
+OUT = os.path.join(V, ".automut")
 PROPS = ["C%02d" % i for i in range(1, 18)]
 
 
@@ -196,7 +196,7 @@ def run_static(m):
         repo = make_copy(m, tmp)
         if repo is None:
             return dict(m, status="STALE")
-        env = dict(os.environ, VERIF_TIER="quick", VERIF_NO_BATTERY="1", VERIF_REPO=repo, VERIF_EVIDENCE_DIR=os.path.join(tmp, "ev"), VERIF_REPLAY_DIR=os.path.join(tmp, "rp"))
+        env = dict(os.environ, VERIF_TIER="quick", VERIF_NO_BATTERY="1", VERIF_REPO=repo, VERIF_CACHE_DIR=os.path.join(tmp, "cache"), VERIF_EVIDENCE_DIR=os.path.join(tmp, "ev"), VERIF_REPLAY_DIR=os.path.join(tmp, "rp"))
         fired, invalid = {}, False
         for pid in PROPS:
             r = subprocess.run([os.path.join(V, "checks/check"), pid, "--tier", "quick"], env=env, capture_output=True, text=True)
